@@ -8,7 +8,7 @@ from typing import Dict, List, Optional, Tuple
 from ..cases import Interp, Lin, Obj, Oracle, RankOracle, Sym, Undecided, weak_orderings
 from ..cfg import CFG, EXIT
 from ..core import Ctx
-from ..model import AnalysisError, FuncInfo, dotted, kwarg, norm, walk_no_nested
+from ..model import AnalysisError, FuncInfo, canon, dotted, kwarg, norm, walk_no_nested
 from .common import assigned_value, enclosing, prog, resolve_local
 
 TERMS = {"S": Lin.atom("S"), "E": Lin.atom("E"),
@@ -168,7 +168,11 @@ def rule_sample(ctx: Ctx):
     al = aloops[-1]
     idx = norm(al.target)
 
-    pivots = local("pivot")
+    # the pivot variable = the local bound to self._random_from_segments(...)
+    pvn = [norm(n.targets[0] if isinstance(n, ast.Assign) else n.target) for n in walk_no_nested(node) if isinstance(n, (ast.Assign, ast.AnnAssign))
+           and isinstance(n.value, ast.Call) and norm(n.value.func) == f"{sn}._random_from_segments"]
+    ctx.require(len(set(pvn)) == 1, "R-C16-3", "the local holding the drawn pivot (= self._random_from_segments(...)) not found")
+    PV = pvn[0]
     env = {}
     atoms = {"s": Lin.atom("s"), "e": Lin.atom("e"), "pivot": Lin.atom("pivot"),
              "binf": Lin.atom("binf"), "bsup": Lin.atom("bsup")}
@@ -188,7 +192,7 @@ def rule_sample(ctx: Ctx):
             if name == "end":
                 return atoms["e"]
         return NotImplemented
-    it = Interp(NoOracle(), {uvar: Sym("unit", "unit"), "pivot": atoms["pivot"], b_inf: atoms["binf"], b_sup: atoms["bsup"]}, attr=attr)
+    it = Interp(NoOracle(), {uvar: Sym("unit", "unit"), PV: atoms["pivot"], b_inf: atoms["binf"], b_sup: atoms["bsup"]}, attr=attr)
 
     ifs = [s for s in ul.body if isinstance(s, ast.If)]
     if len(ul.body) != 1 or len(ifs) != 1:
@@ -273,12 +277,12 @@ def rule_sample(ctx: Ctx):
     if rm:
         c = rm[0].value
         avail = norm(rm[0].targets[0])
-        ok = len(c.args) == 3 and norm(c.args[0]) == "pivot" and norm(c.args[1]) == avail and norm(c.args[2]) == dist
+        ok = len(c.args) == 3 and norm(c.args[0]) == PV and norm(c.args[1]) == avail and norm(c.args[2]) == dist
         ctx.check(ok, "R-C16-3", f, rm[0], "the zone around each drawn pivot is removed from the segments available to later pivots",
                   bad_detail="_remove_pivot_segment is not called with (pivot, available segments, min distance) / result not kept", key="remove")
     else:
         ctx.bad("R-C16-3", f, al, "the zone around a drawn pivot is never removed from the available segments", key="remove")
-    pv = [n for n in ast.walk(al) if isinstance(n, (ast.Assign, ast.AnnAssign)) and norm(n.targets[0] if isinstance(n, ast.Assign) else n.target) == "pivot"]
+    pv = [n for n in ast.walk(al) if isinstance(n, (ast.Assign, ast.AnnAssign)) and norm(n.targets[0] if isinstance(n, ast.Assign) else n.target) == PV]
     drawn = [n for n in pv if isinstance(n.value, ast.Call) and norm(n.value.func) == f"{sn}._random_from_segments"]
     ctx.check(bool(drawn) and avail is not None and norm(drawn[0].value.args[0]) == avail, "R-C16-3", f, drawn[0] if drawn else None,
               "pivot drawn from the segments still available", bad_detail="pivot is not drawn from the remaining segments", key="pivot-source")
@@ -303,9 +307,12 @@ def rule_sample(ctx: Ctx):
         if norm(i.test) == f"{gs}._pivot_type == 'int_pivot'":
             rb = [s for s in i.body if isinstance(s, ast.Return)]
             ro = [s for s in i.orelse if isinstance(s, ast.Return)]
+            chosen = [norm(x.targets[0]) for x in walk_no_nested(g.node) if isinstance(x, ast.Assign) and isinstance(x.value, ast.Call)
+                      and norm(x.value.func) in ("np.random.choice", "numpy.random.choice")]
+            sv_ = chosen[0] if chosen else "?"
             int_ok = bool(rb) and isinstance(rb[0].value, ast.Call) and dotted(rb[0].value.func) == "int" and \
-                "random.uniform(segment.start, segment.end)" in norm(rb[0].value)
-            float_ok = bool(ro) and norm(ro[0].value) in ("np.random.uniform(segment.start, segment.end)",)
+                f"random.uniform({sv_}.start, {sv_}.end)" in norm(rb[0].value)
+            float_ok = bool(ro) and norm(ro[0].value) in (f"np.random.uniform({sv_}.start, {sv_}.end)",)
     ctx.check(int_ok, "R-C16-3", g, None, "integer-pivot mode returns int(uniform draw inside the chosen segment)",
               bad_detail="integer-pivot mode does not return a whole number", construct="int_pivot branch", key="int-mode")
     ctx.check(float_ok, "R-C16-3", g, None, "float-pivot mode returns the uniform draw inside the chosen segment",
@@ -315,7 +322,11 @@ def rule_sample(ctx: Ctx):
     if ch and kwarg(ch[0], "p") is not None:
         wname = norm(kwarg(ch[0], "p"))
         wdef = assigned_value(g.node, wname)
-        w_ok = any("segment.end - segment.start" in norm(x) or "segment.duration" in norm(x) for x in wdef) and \
+        w_ok = any(isinstance(x, ast.Call) and any(isinstance(c_, (ast.GeneratorExp, ast.ListComp)) and
+                   canon(c_.elt if False else c_) in {canon("(s.end - s.start for s in segs)".replace("segs", norm(c_.generators[0].iter))),
+                                                        canon("[s.end - s.start for s in segs]".replace("segs", norm(c_.generators[0].iter))),
+                                                        canon("(s.duration for s in segs)".replace("segs", norm(c_.generators[0].iter)))}
+                   for c_ in ast.walk(x)) for x in wdef) and \
             any(isinstance(n, ast.AugAssign) and norm(n.target) == wname and isinstance(n.op, ast.Div) and norm(n.value) in (f"np.sum({wname})", f"{wname}.sum()", f"sum({wname})")
                 for n in walk_no_nested(g.node))
     ctx.check(w_ok, "R-C16-3", g, ch[0] if ch else None, "segment chosen with probability proportional to its length", key="weights")
